@@ -10,6 +10,7 @@ driver) on the same streams. Chain: zlib ≈ Spec (differential) = model (theore
 (correspondence).
 -/
 import Preflate.Proofs.Spec
+import Preflate.Proofs.HuffTree
 namespace Preflate
 
 /-- every length code: base and extra bits equal the RFC 1951 §3.2.5 closed forms -/
@@ -54,5 +55,12 @@ theorem parse_agrees_spec (d : List UInt8) (p : Parsed) (pl : Array Nat) (n : Na
   rw [← parse_eq_spec, h] at hs
   simp only [Option.some.injEq, Prod.mk.injEq] at hs
   exact ⟨hs.1, by unfold Parsed.consumed; exact hs.2⟩
+
+/-- the array-encoded Huffman tree of huffman_helper.rs decodes exactly what canonical-code matching
+    (the decoder used by the model parser and by `Spec.inflate`) decodes, for every complete length
+    vector and every input -/
+theorem decodeSymTree_eq (l : List Nat) (h : validLengths l = true) (bs : Bits) :
+    ∃ t, buildTree l = .ok t ∧ decodeSymTree t bs = decodeSym (codeTable l) bs :=
+  Proofs.decodeSymTree_eq l h bs
 
 end Preflate
